@@ -139,6 +139,12 @@ def cases(ctx):
             for op in (("get", "set", "bulkget") if not q else (rnd.choice(["get", "set", "bulkget"]),)):
                 C.append(dict(proto=proto, op=op, oids=[oids[0]], vals=[rnd.choice(vals)], reqid=rnd.choice(REQIDS), nr=0, mr=3, engine=e,
                               ctxname=rnd.choice([b"", b"\0" * 12])))
+    # two / three bulk walks with DIFFERENT max-repetitions in progress on one client, consumed alternately: every datagram of every walk
+    # carries the max-repetitions given for that walk (a schedule of API calls, not a new input: the first request alone cannot tell)
+    for proto in PROTOS[1:]:
+        for mrs, sizes in (([2, 5], [5, 7]), ([1, 10], [3, 3]), ([10, 1], [3, 3]), ([3, 2, 7], [6, 5, 4]), ([4, 4], [9, 2])):
+            C.append(dict(proto=proto, op="bulkwalk2", oids=[(1, 3, 6, 1, 2, 1, 10 + i) for i in range(len(mrs))], mrs=mrs, sizes=sizes,
+                          reqid=rnd.choice(REQIDS), nr=0, mr=0))
     # the same requests with the library's loggers at DEBUG (a configuration, not an input): the datagram may not change
     for c in rnd.sample(C, 60 if q else 800):
         C.append(dict(c, debuglog=True))
@@ -165,7 +171,8 @@ def run(ctx):
     ctx.evaluations += len(T)
     verdicts = ctx.validate("Trace_Ber", T, chunk=3000)
     ctx.judge(T, verdicts, signature=sig, nontrivial=lambda tr, v: json.dumps(tr["events"][0]["raw"]))
-    ctx.rule = ("every API operation (get, multiget, getnext, multigetnext, set, multiset, bulkget, first request of walk/bulkwalk, v3 discovery probe) "
+    ctx.rule = ("every API operation (get, multiget, getnext, multigetnext, set, multiset, bulkget, first request of walk/bulkwalk, every request of two / three bulk walks "
+                "with different max-repetitions consumed alternately on one client, v3 discovery probe) "
                 "x v1/v2c/v3 levels with arguments from the boundary lattice (request ids 0..2^63-1 incl. 2^31, 2^32; sub-identifiers up to 2^32-1; 2..128 arcs; "
                 "every SET value type at and around every byte boundary; strings of length 0..1000; communities, context names, engine ids incl. runs of >= 12 zero octets "
                 "and the 5 / 32 octet sizes), histories (credentials changed by configure() or inside a reconfigure() block, across and within a credential family, before "
